@@ -72,8 +72,16 @@ impl Lexer<'_> {
                 return Ok(None);
             }
             None => {
-                let cause = SyntaxError::UnclosedArith { opening_location }.into();
+                // The input ended just after a single `)`. As in the case
+                // above, this may still be a complete command substitution
+                // (e.g. `$((echo '('))`), so try parsing it as such before
+                // reporting the unclosed arithmetic expansion.
                 let location = self.location().await?.clone();
+                self.rewind(orig_index);
+                if let Ok(Some(unit)) = self.command_substitution(start_index).await {
+                    return Ok(Some(unit));
+                }
+                let cause = SyntaxError::UnclosedArith { opening_location }.into();
                 return Err(Error { cause, location });
             }
         }
